@@ -132,7 +132,7 @@ var (
 	panicThr int
 	done     uint32 // plain; set when the execution is over
 
-	joinWG sync.WaitGroup // real join edge: thread ends happen-before the oracle
+	joinWG *sync.WaitGroup // real join edge: thread ends happen-before the oracle (one per Run: threads left behind by a deadlocked run keep their own)
 
 	progress uint64 // plain, incremented at every point; read by the watchdog
 )
@@ -548,8 +548,8 @@ func threadEnd(id int, pv any, panicked bool) {
 	schedule(id)
 }
 
-func threadMain(id int, fn func()) {
-	defer joinWG.Done()
+func threadMain(id int, fn func(), wg *sync.WaitGroup) {
+	defer wg.Done()
 	threadStart(id)
 	panicked := true
 	var pv any
@@ -571,7 +571,7 @@ func Go(fn func()) {
 	}
 	id := newThread()
 	joinWG.Add(1)
-	go threadMain(id, fn)
+	go threadMain(id, fn, joinWG)
 }
 
 // ---------------------------------------------------------------------------
@@ -803,8 +803,9 @@ func Run(pfx []int, body func()) Result {
 	resetState(pfx)
 	id := newThread()
 	setActive()
+	joinWG = new(sync.WaitGroup)
 	joinWG.Add(1)
-	go threadMain(id, body)
+	go threadMain(id, body, joinWG)
 	grantFirst(id)
 	if !waitDone() {
 		setStuck()
